@@ -103,20 +103,21 @@ class Env:
     def run_subcontrol(self, session, path):
         from aexpect.exceptions import ShellCmdError
         p, do, w = self.door_params, self.door_action, session.wid
+        own = str(p.get("nets", w)) == w      # the state control runs in the environment of the worker the node was composed for
         if do == "check":
             req = sorted((k[len("check_state_"):], v) for k, v in p.items() if k.startswith("check_state_"))
             ok = all((o, s) in self.pool(w) or (o, s) in self.pool("shared") for o, s in req)
-            self.rec.ev(w, "scan", req=["%s:%s" % r for r in req], found=ok)
+            self.rec.ev(w, "scan", req=["%s:%s" % r for r in req], found=ok, own=own)
             if not ok:
                 raise ShellCmdError("cmd", 1, "AssertionError")
         elif do == "unset":
             req = sorted((k[len("unset_state_"):], v) for k, v in p.items() if k.startswith("unset_state_"))
-            self.rec.ev(w, "unset", req=["%s:%s" % r for r in req], scope=str(p.get("pool_scope", "")))
+            self.rec.ev(w, "unset", req=["%s:%s" % r for r in req], scope=str(p.get("pool_scope", "")), own=own)
             for o, s in req:
                 self.pool(w).discard((o, s))
         elif do == "get":
             req = sorted((k[len("get_state_"):], v) for k, v in p.items() if k.startswith("get_state_"))
-            self.rec.ev(w, "sync", req=["%s:%s" % r for r in req])
+            self.rec.ev(w, "sync", req=["%s:%s" % r for r in req], own=own)
             for o, s in req:
                 if (o, s) in self.pool("shared"):
                     self.pool(w).add((o, s))
@@ -146,9 +147,16 @@ class Env:
                 srcs.append(wid if wid else "shared")
             gets.append({"o": okey, "s": s, "src": srcs, "perm": bool(o.is_permanent())})
         status, dur = self.sched.outcome(cls, pre, w, k)
+        own = node.params.get("nets", "") == w
+        if own and worker is not None and node.params.get("nets_spawner") == "remote":
+            # a remote test process is started through the worker's session (TestRunner.run_test_task: task.spawner_handle)
+            try:
+                own = getattr(worker.get_session(), "wid", w) == w
+            except Exception:
+                pass
         m = re.search(r"r(\d+)$", uid)
         rec.ev(w, "prestart" if pre else "start", t=cls, uid=uid, u=int(m.group(1)) if m else 0, vt=round(loop.time(), 3),
-               gets=gets, own=(node.params.get("nets", "") == w), nets=node.params.get("nets", ""),
+               gets=gets, own=own, nets=node.params.get("nets", ""),
                pm={k: str(node.params.get(k, "")) for k in ("pool_scope", "check_mode_images")},
                scope=node.params.get("pool_scope", ""), srcw=sorted({k2[len("nets_host_"):] for k2 in node.params if k2.startswith("nets_host_")}),
                name=name, has_unknown=("UNKNOWN" in [r["status"] for r in node.results]),
@@ -345,20 +353,27 @@ def run_traversal(graph, ids, store, sched, run_params, previous_results=None, c
     runner.previous_results = list(previous_results or [])
     graph.runner = runner
 
-    def get_session(self):
+    address_of = {}
+    for w_ in workers:
+        address_of[(str(w_.params.get("nets_shell_host")), str(w_.params.get("nets_shell_port")))] = w_.id
+
+    def wait_for_login(client, host, port, *a, **k):
+        # the session leads to the environment listening at host:port
         s = mock.MagicMock()
-        s.wid = self.id
+        s.wid = address_of.get((str(host), str(port)), "?%s:%s" % (host, port))
+        s.cmd_output.return_value = "today"
         return s
 
     async def rtt(self, node):
         rec.runs += 1
         await env.run_test_task(self, node)
 
+    TestWorker._session_cache.clear()
     outcome = "done"
     rec.install()
     try:
         with mock.patch.object(nodemod, "door", env), mock.patch.object(TestRunner, "run_test_task", rtt), \
-                mock.patch.object(TestWorker, "get_session", get_session):
+                mock.patch("avocado_i2n.cartgraph.worker.remote.wait_for_login", wait_for_login):
             loop = make_loop()
             asyncio.set_event_loop(loop)
             try:
